@@ -13,6 +13,9 @@ C['C05']=("Static analysis: structural necessary conditions of the property (dea
 C['C17']=("Static analysis: the parser's syntax-error barrier dominates the tree walk, every nil-returning helper's result is nil-tested before dereference, the domain matcher bounds-checks its set index, unknown keys/items/required flow only to error returns, include reads are dominated by the suffix/containment/permission/circularity tests, and the set of explicit panics reachable from the configuration entry points equals the reviewed set.",
  "Trusted: go/types, go/cfg; the assumption that an ANTLR tree of a syntactically valid input conforms to the grammar. Not decided: ANTLR runtime, reflection panics in config.New, token fidelity of values.",
  TECH+" (dominance barrier, Engler-style nil contradiction rule, bound-guard dominance, error-flow, call-graph reachable panic set vs reviewed set)")
+C['C20']=("Static analysis: release of an accepted reload on every CFG path of the worker loop and the main loop's reloading branch, suppression begin/end balance and who-may-call, effect-freedom of the refusal edge, reviewed writer set of the three admission flags, retirement hand-shake shape, and an always-armed timeout on the retirement drain wait.",
+ "Trusted: go/types, go/cfg; reviewed writer table in internal/props/c20.go. Not decided: interleavings of signals with the worker's stages, progress-file races.",
+ TECH+" (loop back-edge must-pass-through, who-may-call, effect enumeration on an edge, definition-dominates-select)")
 def chk(pid):
     text,note,tech=C[pid]
     return {"property_id":pid,"quick_cmd":f"bin/daecheck -p {pid} -tier quick","thorough_cmd":f"bin/daecheck -p {pid} -tier thorough","evidence_file":f"/verif/evidence/{pid}.json",
